@@ -291,6 +291,28 @@ func c11Relay(c *Ctx, pol int) {
 }
 
 // C12: deviant SMP messages never produce success, a crash or a stuck state machine
+// the numeric range check on received group elements, for the key exchange (0) and SMP under v2 / v3
+func groupRangeCases(c *Ctx) {
+	p := groupP
+	one := big.NewInt(1)
+	q := new(big.Int).Rsh(new(big.Int).Sub(p, one), 1)
+	vals := []*big.Int{big.NewInt(0), one, big.NewInt(2), big.NewInt(3), new(big.Int).Sub(p, big.NewInt(3)), new(big.Int).Sub(p, big.NewInt(2)),
+		new(big.Int).Sub(p, one), p, new(big.Int).Add(p, one), new(big.Int).Add(p, big.NewInt(2)), q, new(big.Int).Lsh(p, 1), new(big.Int).Lsh(one, 1535), new(big.Int).Lsh(one, 1536)}
+	for k := 0; k < 6; k++ {
+		vals = append(vals, new(big.Int).SetBytes(c.R.Bytes(1+c.R.Intn(200))))
+	}
+	for _, v := range []int{0, 2, 3} {
+		for _, x := range vals {
+			r := 0
+			if otr3.VerifIsGroupElement(v, x) {
+				r = 1
+			}
+			c.AddCase(90, "isGroupElement", N(r), N(v), NB(x))
+		}
+	}
+	c.Count("group-range-cases")
+}
+
 func genC12(c *Ctx) {
 	c.Rep.Rule = "for SMP messages 1, 1Q, 2, 3, 4: every MPI field replaced by a boundary value (0, 1, p-1, p, p+1, q, random, +1) or MPIs dropped, sent through the authentic session; out-of-sequence and duplicated messages; user calls (start, answer, abort) in every SMP state; v2 and v3; each step compared with the symbolic SMP model; oracle: no Success on the receiver of a deviant message, no panic, and a fresh honest run with equal secrets succeeds afterwards"
 	n := 8
@@ -317,7 +339,24 @@ func genC12(c *Ctx) {
 		}
 		c.AddScenario(s, pols)
 	}
-	for i := 0; i < n; i++ {
+	groupRangeCases(c)
+	// the plan: every message with 1, 2, 3 and all of its values dropped; every field of every message with boundary
+	// classes (quick: two classes per field, rotating; thorough: all eight); then random ones
+	type dev struct{ stage, field, cls int }
+	var plan []dev
+	for stage := 1; stage <= 4; stage++ {
+		for _, d := range []int{1, 2, 3, nfields[stage]} {
+			plan = append(plan, dev{stage, 0, 20 + d})
+		}
+		for f := 0; f < nfields[stage]; f++ {
+			for k := 0; k < 8; k++ {
+				if c.Thorough() || k == (f+stage)%8 || k == (f+stage+3)%8 {
+					plan = append(plan, dev{stage, f, k})
+				}
+			}
+		}
+	}
+	for i := 0; i < len(plan)+n; i++ {
 		pol := polV3
 		if i%4 == 3 {
 			pol = polV2
@@ -333,6 +372,9 @@ func genC12(c *Ctx) {
 		cls := c.R.Intn(8)
 		if c.R.Chance(1, 6) {
 			cls = 20 + 1 + c.R.Intn(3)
+		}
+		if i < len(plan) {
+			stage, field, cls = plan[i].stage, plan[i].field, plan[i].cls
 		}
 		withQ := c.R.Chance(1, 3)
 		q := ""
@@ -397,7 +439,7 @@ func genC12(c *Ctx) {
 			}
 			c.Violate("panic", trig, "a call panicked while processing a deviant SMP message", s.trace)
 			s.panicked = false
-		} else {
+		} else if i >= len(plan) || i%3 == 0 || c.Thorough() {
 			// recovery: a fresh honest run with equal secrets succeeds
 			s.AbortSMP(1)
 			s.Pump(1, 2, 6)
